@@ -161,11 +161,14 @@ class Outcome:
             hs, goal = atomize_transcendentals(hs, goal)
         self.V.record(self, name, hs, goal, kind, budget_ms)
 
-    def prove_from(self, name, hyps, goal, kind='lemma', budget_ms=None):
+    def prove_from(self, name, hyps, goal, kind='lemma', budget_ms=None, atomize=False):
         """Prove goal from an explicit (smaller) hypothesis list only -- sound, and keeps hard lemmas quantifier free.
         Each hypothesis must itself be justified (a path fact, a ground instance of one, or a previously proved clause)."""
         goal = T.truthy(goal) if not isinstance(goal, bool) else goal
-        self.V.record(self, name, [T.to_bool_term(h) for h in hyps if not (isinstance(h, bool) and h)], goal, kind, budget_ms)
+        hs = [T.to_bool_term(h) for h in hyps if not (isinstance(h, bool) and h)]
+        if atomize and T.is_z3(goal):
+            hs, goal = atomize_all(hs, goal)
+        self.V.record(self, name, hs, goal, kind, budget_ms)
 
     def prove_all(self, clauses):
         for nm, g in clauses:
@@ -211,6 +214,45 @@ class Outcome:
             for ix in np.ndindex(*arr.a.shape):
                 goals.append(T.seq(arr.a[ix], orig(*ix)))
             self.prove('frame/%s-unchanged' % name, T.sand(*goals) if goals else True, kind='frame')
+
+
+def atomize_all(hyps, goal):
+    """Replace EVERY application of an uninterpreted function by a fresh constant of its sort (outermost first): a sound
+    generalisation that turns a ground lemma into pure arithmetic (no congruence reasoning is needed for such lemmas)."""
+    found = {}
+    seen = set()
+
+    def walk(t):
+        if t.get_id() in seen:
+            return
+        seen.add(t.get_id())
+        if z3.is_app(t) and t.num_args() > 0 and t.decl().kind() == z3.Z3_OP_UNINTERPRETED:
+            found[t.get_id()] = t
+            return
+        for c in t.children():
+            walk(c)
+    for f in list(hyps) + [goal]:
+        if T.is_z3(f):
+            if has_quant(f):
+                raise EngineError('atomize_all on a quantified formula')
+            walk(f)
+    if not found:
+        return hyps, goal
+    subs = [(t, z3.Const('atom!%d' % k, t.sort())) for k, t in enumerate(found.values())]
+    return [z3.substitute(h, *subs) if T.is_z3(h) else h for h in hyps], z3.substitute(goal, *subs)
+
+
+def has_quant(e):
+    st, seen = [e], set()
+    while st:
+        t = st.pop()
+        if t.get_id() in seen:
+            continue
+        seen.add(t.get_id())
+        if z3.is_quantifier(t):
+            return True
+        st.extend(t.children())
+    return False
 
 
 def atomize_transcendentals(hyps, goal):
